@@ -3,7 +3,7 @@ import re
 
 SPEC = {
     "properties_file": "Properties_C18.v",
-    "facts": ["cache_multipliers", "cache_jitter_bound", "cache_expiry_ms_per_s"],
+    "facts": ["cache_multipliers", "cache_jitter_bound", "cache_expiry_ms_per_s", "cache_rearm", "cache_trigger_passed"],
     "assumptions": ["exact timer scheduling; jitter 0..19 ms chosen by the script through the interposed RNG primitive",
                     "TTL between 1 s and 2 000 000 s"],
 }
